@@ -16,6 +16,16 @@ CHECKS = {
          "Seeded hostile histories of the real application: a simulated remote chain emits events, one pigeon per validator votes (honest, late, or for an altered claim), stake moves, validators get jailed/unjailed, governance moves the oracle cursor down/up/to the same value and back. After every block the shadow oracle re-derives from the stored attestation records and staking powers: duplicate-free vote lists, distinct voters' power*100 > 66*total for every claim that took effect, strictly consecutive nonces, one claim per nonce per reset epoch, cursor advance == number of effects, and supply/receiver effects applied exactly once. Held = held on those histories.",
          "Stored powers after a block equal those the tally saw (module order); jailing via valset.Jail; compass hand-over resets only at bring-up.",
          "DESIGN.md §2 C02"),
+ "C09": ("exploration", "chain+world",
+         "recover()/error oracle around FinalizeBlock of the real app under omnibus histories with hostile accepted values + Begin/EndBlock probing of every Paloma module on forked states at rare height classes",
+         "Seeded omnibus histories of the real application in which every sender-controlled value (fee multiplicators, gas estimates, amounts, payload sizes, proofs of every malformed shape, nonces, versions, addresses, governance-set numbers and strings) comes from hostile generators and remains only if the chain accepted the transaction. Every FinalizeBlock is wrapped in recover()+error check; every 40 blocks each Paloma module's BeginBlock/EndBlock is additionally run on throw-away forks at the next heights = 0 mod 10/50/300/303 and at 10 000 / 15 150 / 30 300 / 303 000. Held = no abort on those executions.",
+         "Only accepted-transaction states; governance-set policy numbers from a plausible range; version-gate halt not exercised; stakes bounded by realistic supply.",
+         "DESIGN.md §2 C09"),
+ "C11": ("exploration", "chain+world",
+         "metamorphic key oracle over reflected single-field mutants of every claim type + differential execution of vote/tally/handler on forked states of the real app",
+         "Claim types and fields are discovered by reflection; for every single-field mutant pair the real attestation key must differ when the field is on the property's list, and a three-way differential run on forks of the real app (honest votes X / honest votes X' / byzantine X' first then honest X) through the real msg server, Attest, the skyway end-blocker and the attestation handler must show that pooled votes never produce a different effect. Held = held on the generated pairs.",
+         "Single-field differences only (as the property quantifies); collision resistance of the hash assumed; key model cross-checked against the keys the keeper really writes and against a real ABCI block in every case.",
+         "DESIGN.md §2 C11"),
  "C19": ("exploration", "pure",
          "reference-model monitor over insert/remove/select histories of the real mempool (bounded-exhaustive + seeded random)",
          "Every history of <=5 (quick) / <=6 (thorough) operations over a 2-sender x 2-sequence x 5-class alphabet plus seeded random histories over up to 8 senders is executed against the real DefaultPriorityMempool; after every operation a map-based reference model checks count, exactly-once, per-sender nonce order and the class-priority rule. Held = held on those histories.",
